@@ -24,7 +24,7 @@ MANIFEST = {
 }
 MANIFEST["text"] += " " + (
     'Added after the seeding waves: the planar metric at two more magnitudes (coordinates x 2^-16 and x 2^23), kilometre-scale edges at 59.9N, and a matcher object re-used for another trace after a widening / extension (the initial radius must hold around the NEW first observation).')
-BUDGET = {"quick": 420, "thorough": 3000}
+BUDGET = {"quick": 900, "thorough": 3000}
 RULE = ("states = path states checked, transitions = (state, cut-off/position clause) checks, traces validated = best paths checked; "
         "non-trivial = a finite cut-off is configured and the path is non-empty, or the metric is latitude-longitude; outcomes = (index, path shape).")
 ASSUMPTIONS = ["geodesic tolerances: 5 cm + 1e-6 d on distances, 25 cm on positions (DESIGN section 4)"]
